@@ -48,6 +48,8 @@ Definition map_rows (f : string -> row -> row) (n : net) : net :=
   map (fun t => mkTable (t_name t) (map (f (t_name t)) (t_rows t))) n.
 Definition filter_rows (keep : string -> row -> bool) (n : net) : net :=
   map (fun t => mkTable (t_name t) (filter (keep (t_name t)) (t_rows t))) n.
+Definition rows_of (tn : string) (n : net) : list row :=
+  flat_map (fun t => if String.eqb (t_name t) tn then t_rows t else []) n.
 Definition labels_of (e : string) (n : net) : list Z :=
   flat_map (fun t => if String.eqb (t_name t) e then map r_label (t_rows t) else []) n.
 
@@ -154,6 +156,22 @@ Definition select (sel selp : string -> cell -> bool) (js : list Z) (n : net) : 
     else keep_row sel js tn r &&
          forallb (fun c => negb (selp tn c) || memz (c_val c) (kept_labels sel js n "pipe")) (r_cells r)) n.
 
+(* select_subnet(include_results=True): the element tables as above, every res_ row follows its element row *)
+Definition sel_pred (sel selp : string -> cell -> bool) (js : list Z) (n : net) (tn : string) (r : row) : bool :=
+  if String.eqb tn "junction" || String.eqb tn "junction_geodata" then memz (r_label r) js
+  else if String.eqb tn "pipe_geodata" then memz (r_label r) (kept_labels sel js n "pipe")
+  else if prefix "res_" tn then false
+  else keep_row sel js tn r &&
+       forallb (fun c => negb (selp tn c) || memz (c_val c) (kept_labels sel js n "pipe")) (r_cells r).
+Definition select_res (sel selp : string -> cell -> bool) (js : list Z) (n : net) : net :=
+  filter_rows (fun tn r =>
+    if prefix "res_" tn
+    then match parent tn with
+         | Some e => memz (r_label r) (map r_label (filter (sel_pred sel selp js n e) (rows_of e n)))
+         | None => false
+         end
+    else sel_pred sel selp js n tn r) n.
+
 (* ---- the operations of the property ---- *)
 Inductive op :=
 | Reindex (cs : colset) (e : string) (lk : list (Z * Z))     (* reindex_junctions / _pipes / _elements *)
@@ -163,7 +181,9 @@ Inductive op :=
 | Select (cs : colset) (js : list Z)                         (* select_subnet *)
 | DropJ (cs : colset) (js : list Z) (cascade : bool)         (* drop_junctions(net, js, drop_elements) *)
 | DropElems (cs : colset) (js : list Z)                      (* drop_elements_at_junctions (cs as dumped for its flags) *)
-| DropP (ps : list Z).                                       (* drop_pipes *)
+| DropP (ps : list Z)                                        (* drop_pipes *)
+| FuseKeep (cs : colset) (j1 : Z) (js : list Z)              (* fuse_junctions(net, j1, js, drop=False) *)
+| SelectRes (cs : colset) (js : list Z).                     (* select_subnet(include_results=True) *)
 
 Definition others (j1 : Z) (js : list Z) : list Z := filter (fun j => negb (Z.eqb j j1)) js.
 
@@ -179,6 +199,8 @@ Definition step (s : sem) (o : op) (n : net) : net :=
       if cascade then drop_elems_full (on_cell (selJ s cs)) (on_cell (selP s)) js n1 else n1
   | DropElems cs js => drop_elems_full (on_cell (selJ s cs)) (on_cell (selP s)) js n
   | DropP ps => drop_labels (fam "pipe") ps (drop_pipe_refs (on_cell (selP s)) ps n)
+  | FuseKeep cs j1 js => redirect (on_cell (selJ s cs)) j1 (others j1 js) n
+  | SelectRes cs js => select_res (on_cell (selJ s cs)) (on_cell (selP s)) js n
   end.
 
 Fixpoint nodup_z (l : list Z) : bool :=
@@ -195,6 +217,8 @@ Definition ok (s : sem) (o : op) (n : net) : bool :=
   | DropJ _ js _ => subset_b js (labels_of "junction" n)
   | DropElems _ _ => true
   | DropP ps => subset_b ps (labels_of "pipe" n)
+  | FuseKeep _ _ _ => true
+  | SelectRes _ js => subset_b js (labels_of "junction" n) && nodup_z js
   end.
 
 Definition step_opt (s : sem) (o : op) (n : net) : option net := if ok s o n then Some (step s o n) else None.
@@ -233,8 +257,6 @@ Fixpoint insert_row (r : row) (l : list row) : list row :=
   | x :: q => if Z.leb (r_label r) (r_label x) then r :: l else x :: insert_row r q
   end.
 Definition sort_rows (l : list row) : list row := fold_right insert_row [] l.
-Definition rows_of (tn : string) (n : net) : list row :=
-  flat_map (fun t => if String.eqb (t_name t) tn then t_rows t else []) n.
 (* tables are compared by name, rows sorted by label; a table absent on one side counts as empty *)
 Definition net_eqb (a b : net) : bool :=
   forallb (fun t => list_eqb row_eqb (sort_rows (t_rows t)) (sort_rows (rows_of (t_name t) b))) a &&
@@ -254,7 +276,7 @@ Definition summary (cs : list case) : nat * nat * Z :=
 Definition cs_of (o : op) : colset :=
   match o with
   | Reindex cs _ _ | ContElem cs _ _ | ContAll cs _ _ | Fuse cs _ _ | Select cs _ | DropJ cs _ _
-  | DropElems cs _ => cs
+  | DropElems cs _ | FuseKeep cs _ _ | SelectRes cs _ => cs
   | DropP _ => []
   end.
 Definition summary_hyp (cs : list case) : nat * nat * Z :=
